@@ -57,6 +57,7 @@ type resolver struct {
 	inProgressUses map[*Grouping]*usesResolved
 	unresolvedUses []*usesUnresolved
 	loadedModules  map[string]*Module
+	included       map[string]struct{}
 	trace          bool
 }
 
@@ -209,6 +210,15 @@ func (r *resolver) enter(d Definition) ([]Definition, error) {
 
 func (r *resolver) copyOverIncludes(main *Module, includes []*Include) error {
 	for _, i := range includes {
+		// a submodule can be included from several places, even by itself: it is merged once
+		if r.included == nil {
+			r.included = make(map[string]struct{})
+		}
+		key := mainModule(main).ident + " " + i.subName
+		if _, done := r.included[key]; done {
+			continue
+		}
+		r.included[key] = struct{}{}
 		if i.loader == nil {
 			return errors.New("no module loader defined")
 		}
@@ -294,15 +304,13 @@ func (r *resolver) applyDeviation(y *Module, d *Deviation) error {
 		case *Notification:
 			notifs := target.Parent().(HasNotifications).Notifications()
 			delete(notifs, target.Ident())
+		case *ChoiceCase:
+			if choice, valid := target.Parent().(*Choice); valid {
+				delete(choice.cases, target.Ident())
+			}
 		default:
-			hasDDefs := target.Parent().(HasDataDefinitions)
-			existing := hasDDefs.popDataDefinitions()
-			for _, candidate := range existing {
-				if candidate != target {
-					if err := hasDDefs.addDataDefinition(candidate); err != nil {
-						return err
-					}
-				}
+			if err := removeDataDefinition(target); err != nil {
+				return err
 			}
 		}
 		return nil
@@ -352,6 +360,9 @@ func (r *resolver) applyDeviation(y *Module, d *Deviation) error {
 		if d.Add.HasDefault() {
 			if hasType.HasDefault() {
 				return fmt.Errorf("default already set on %s", d.Ident())
+			}
+			if _, many := hasType.(HasDefaultValues); !many && len(d.Add.Default()) > 1 {
+				return fmt.Errorf("only one default can be added to %s", d.Ident())
 			}
 			for _, deflt := range d.Add.Default() {
 				hasType.addDefault(deflt)
@@ -464,6 +475,10 @@ func (r *resolver) applyDeviation(y *Module, d *Deviation) error {
 func deviationFitsTarget(d *Deviation, target Definition) error {
 	_, hasDets := target.(HasDetails)
 	_, hasType := target.(Leafable)
+	if _, isAny := target.(*Any); isAny {
+		// anydata and anyxml have neither units nor a default
+		hasType = false
+	}
 	_, hasListDets := target.(HasListDetails)
 	_, hasMusts := target.(HasMusts)
 	_, isList := target.(*List)
@@ -930,8 +945,12 @@ func (r *resolver) expandAugment(y *Augment, parent Meta) error {
 	}
 
 	for _, orig := range y.Actions() {
+		hasActions, valid := target.(HasActions)
+		if !valid {
+			return fmt.Errorf("%s - augment target %T does not allow actions", SchemaPath(y), target)
+		}
 		d := orig.clone(target).(Definition)
-		if err := target.(HasActions).addAction(d.(*Rpc)); err != nil {
+		if err := hasActions.addAction(d.(*Rpc)); err != nil {
 			return err
 		}
 		if _, err := r.enter(d); err != nil {
@@ -940,8 +959,12 @@ func (r *resolver) expandAugment(y *Augment, parent Meta) error {
 	}
 
 	for _, orig := range y.Notifications() {
+		hasNotifs, valid := target.(HasNotifications)
+		if !valid {
+			return fmt.Errorf("%s - augment target %T does not allow notifications", SchemaPath(y), target)
+		}
 		d := orig.clone(target).(Definition)
-		if err := target.(HasNotifications).addNotification(d.(*Notification)); err != nil {
+		if err := hasNotifs.addNotification(d.(*Notification)); err != nil {
 			return err
 		}
 		if _, err := r.enter(d); err != nil {
